@@ -1,5 +1,6 @@
 import QR.Model.QRObject
 import QR.Proofs.Except
+import QR.Proofs.History
 /-
 C18 - out-of-range settings are rejected, in-range settings accepted (all integers), and nothing is produced under an
 out-of-range setting (invariant over operation sequences of any length).
@@ -37,5 +38,90 @@ theorem C18_construct (version : Option Int) (level : Nat) (box border : Int) (m
       (0 < box ∧ 0 ≤ border ∧ (∀ v, version = some v → 1 ≤ v ∧ v ≤ 40) ∧ (∀ m, mask = some m → 0 ≤ m ∧ m ≤ 7)) := by
   unfold construct checkBoxSize checkBorder checkMaskPattern checkVersion
   cases version <;> cases mask <;> simp <;> (repeat' split) <;> simp_all <;> omega
+
+/-! ### nothing is produced under an out-of-range setting (proofs: QR/Proofs/History.lean)
+
+`GInv g` is the invariant of the process-wide blank cache (`Props.Global.Inv` of C11, which every operation preserves and
+the empty cache satisfies); `CacheInv s` says that a filled `data_cache` goes with a `modules_count` of a real version. -/
+
+theorem SettingsOK_iff (s : QRState) : SettingsOK s ↔ SettingsInv s := Iff.rfl
+
+/-- a constructed object satisfies the invariants -/
+theorem C18_constructed (version : Option Int) (level : Nat) (box border : Int) (mask : Option Int) (s0 : QRState)
+    (h : construct version level box border mask = .ok s0) : SettingsOK s0 ∧ CacheInv s0 ∧ 0 < s0.boxSize :=
+  construct_inv h
+
+/-- every operation keeps the settings in range (setters validate; `best_fit` only stores checked versions) and keeps
+    the two cache invariants -/
+theorem C18_step (g : Global) (hg : GInv g) (s : QRState) (op : Op) :
+    GInv (step (g, s) op).1.1 ∧ (SettingsOK s → SettingsOK (step (g, s) op).1.2) ∧
+      (CacheInv s → CacheInv (step (g, s) op).1.2) := by
+  obtain ⟨a1, a2, a3, a4⟩ := step_inv g s op hg
+  exact ⟨a1, fun hs => ⟨a2 hs.1, a3 hs.2⟩, a4⟩
+
+/-- ... hence so does every sequence of operations -/
+theorem C18_run (ops : List Op) (g : Global) (hg : GInv g) (s : QRState) :
+    GInv (run (g, s) ops).1.1 ∧ (SettingsOK s → SettingsOK (run (g, s) ops).1.2) ∧
+      (CacheInv s → CacheInv (run (g, s) ops).1.2) := by
+  obtain ⟨a1, a2, a3, a4⟩ := run_inv ops g s hg
+  exact ⟨a1, fun hs => ⟨a2 hs.1, a3 hs.2⟩, a4⟩
+
+/-- **C18**: the `k`-th output of any run, if it is a matrix, an image or a text, was handed out in a state (`post`,
+    the state right after the `k`-th operation, i.e. after its implicit compile) with `version ≤ 40`, mask `None` or
+    `≤ 7`, a compiled matrix whose size is that of a real version `1..40`, and - for an image - `box_size > 0`; the
+    output carries exactly that state's matrix, border, size and box size.
+    `1 ≤ version` holds as soon as the operation compiled (`data_cache` was empty) or `version` was not `None` before;
+    it does NOT hold in general: see `C18_version_none_after_compile`. -/
+theorem C18_never (ops : List Op) (g0 : Global) (hg : GInv g0) (s0 : QRState) (hs : SettingsOK s0) (hc : CacheInv s0)
+    (k : Nat) (o : Out) (h : (run (g0, s0) ops).2[k]? = some o) :
+    let pre := (run (g0, s0) (ops.take k)).1.2
+    let post := (run (g0, s0) (ops.take (k + 1))).1.2
+    let produced := post.version ≤ 40 ∧ (∀ m, post.mask = some m → m ≤ 7) ∧ post.dataCache.isSome = true ∧
+      ∃ v, 1 ≤ v ∧ v ≤ 40 ∧ post.modulesCount = v * 4 + 17
+    let versionSet := pre.dataCache = none ∨ pre.version ≠ 0 → 1 ≤ post.version
+    match o with
+    | .matrix m => produced ∧ versionSet ∧ m = framedOpt post.modules.toLists post.border
+    | .image b n bs m => produced ∧ versionSet ∧ 0 < post.boxSize ∧ b = post.border ∧ n = post.modulesCount ∧
+        bs = post.boxSize ∧ m = post.modules.toLists
+    | .text b m => produced ∧ versionSet ∧ (b = post.border ∨ b = 1) ∧ m = post.modules.toLists
+    | _ => True := by
+  have := run_out ops g0 s0 hg hs hc k o h
+  cases o <;> exact this
+
+/-- the outputs that hand something out -/
+def isProduct : Out → Bool
+  | .matrix _ => true
+  | .image .. => true
+  | .text .. => true
+  | _ => false
+
+/-- ... in particular for every constructed object, from the empty process cache -/
+theorem C18_never_constructed (version : Option Int) (level : Nat) (box border : Int) (mask : Option Int)
+    (s0 : QRState) (hcon : construct version level box border mask = .ok s0) (ops : List Op)
+    (k : Nat) (o : Out) (h : (run ({ blanks := [] }, s0) ops).2[k]? = some o) (ho : isProduct o = true) :
+    (run ({ blanks := [] }, s0) (ops.take (k + 1))).1.2.version ≤ 40 ∧
+    (∀ m, (run ({ blanks := [] }, s0) (ops.take (k + 1))).1.2.mask = some m → m ≤ 7) ∧
+    (∃ v, 1 ≤ v ∧ v ≤ 40 ∧ (run ({ blanks := [] }, s0) (ops.take (k + 1))).1.2.modulesCount = v * 4 + 17) ∧
+    (∀ b n bs m, o = .image b n bs m → 0 < bs) := by
+  have hempty : GInv { blanks := [] } := by intro v b hl; simp at hl
+  have := run_out ops _ s0 hempty (construct_inv hcon).1 (construct_inv hcon).2.1 k o h
+  cases o with
+  | matrix m => exact ⟨this.1.1, this.1.2.1, this.1.2.2.2, fun _ _ _ _ he => by cases he⟩
+  | image b n bs m =>
+    obtain ⟨a1, _, a3, _, _, a6, _⟩ := this
+    refine ⟨a1.1, a1.2.1, a1.2.2.2, fun _ _ bs' _ he => ?_⟩
+    injection he with _ _ he _
+    subst he
+    rw [a6]; exact a3
+  | text b m => exact ⟨this.1.1, this.1.2.1, this.1.2.2.2, fun _ _ _ _ he => by cases he⟩
+  | unit => cases ho
+  | err e => cases ho
+
+/-- why `1 ≤ version` cannot be claimed unconditionally: `qr.version = None` after a compile does not clear the data
+    cache, so `get_matrix()` hands out the stored matrix while `version` is `None` (0 in the model) -/
+theorem C18_version_none_after_compile (g : Global) (s : QRState) (d : List Nat) (h : s.dataCache = some d) :
+    (run (g, s) [.setVersion none, .getMatrix]).2 = [.unit, .matrix (framedOpt s.modules.toLists s.border)] ∧
+    (run (g, s) [.setVersion none, .getMatrix]).1.2.version = 0 := by
+  simp [run, step, ensureMade, h]
 
 end QR.Props
